@@ -1,8 +1,140 @@
+/-
+  C19 — PROPERTY THEOREMS.
+
+  Property: "Text, path and command-line utilities match their definitions and
+  stay in bounds.  For every input, split returns exactly the maximal runs of
+  non-delimiter characters in order, join is its inverse on such token lists,
+  trim removes exactly the leading and trailing white space, replace performs
+  left-to-right non-overlapping substitution and igris_memmem finds the first
+  occurrence or none.  The argv splitter and the shell dispatchers tokenise on
+  white space, never produce more than the allowed arguments, invoke the
+  handler of the first token if and only if it names a command, and tolerate
+  empty and blank lines.  Path helpers (next, iterate, compare_node,
+  remove_prefix) agree with a component-wise reference, and none of these
+  routines reads or writes outside the extent of the buffers it is given."
+
+  Model: Model.lean (the code after the fix-C19 repairs).  Specifications:
+  Spec.lean.  "Stays in bounds" is part of every `… = some …` statement: the
+  model functions return `none` on an access outside the extent they are given
+  (see the header of Model.lean), so equality with `some spec` says at once
+  "no fault, enough fuel, and this value".
+-/
 import IgrisModel.C19.Lemmas
 namespace Igris.C19
 open Igris.Proto
 
-/-- before the repair, `split(buf, ' ')` read the byte behind an empty buffer -/
-theorem splitCharOrig_empty_witness : splitCharOrig [] SP = none := by decide
+/-! ## split -/
+
+/-- `split(buf, delim)`: for every buffer (any bytes, any length, not
+terminated) exactly the maximal runs of characters `≠ delim`, and no access
+outside the buffer -/
+theorem splitChar_eq_runs (buf : Str) (delim : Byte) :
+    splitChar buf delim = some (runs (· == delim) buf) := by
+  unfold splitChar
+  rw [splitCharLoop_eq delim _ buf [] (by omega)]
+  simp
+
+/-- the tokens `runs` produces are non-empty and free of delimiters … -/
+theorem runs_tokens (d : Byte → Bool) (s : Str) :
+    ∀ t ∈ runs d s, t ≠ [] ∧ ∀ c ∈ t, d c = false :=
+  runsGo_tokens d s [] (by simp)
+
+/-- … and together they are exactly the non-delimiter characters of the
+input, in order (nothing lost, nothing invented, nothing reordered) -/
+theorem runs_flatten (d : Byte → Bool) (s : Str) :
+    (runs d s).flatten = s.filter (fun c => !d c) := by
+  simpa [runs] using runsGo_flatten d s []
+
+/-- `split(buf, delims)` as the code is: NUL is a delimiter too, whatever
+`delims` says (`strchr(delims, 0)` finds the terminator of `delims`).
+Holds for every buffer; no access outside the buffer. -/
+theorem splitDelims_eq_runs_with_nul (buf delims : Str) :
+    splitDelims buf delims = some (runs (fun c => c == NUL || delims.contains c) buf) := by
+  unfold splitDelims
+  split
+  · rename_i h
+    have : buf = [] := List.eq_nil_of_length_eq_zero h
+    subst this; rfl
+  · rw [splitDelimsLoop_eq delims _ buf [] (by omega)]
+    simp only [List.nil_append]
+    rfl
+
+/-
+  FULL STATEMENT (false on the tree, see `splitDelims_nul_witness`):
+     ∀ buf delims, splitDelims buf delims = some (runs (fun c => delims.contains c) buf)
+  Proved part: buffers without NUL.   Recorded finding: C19-split-delims-nul.
+-/
+theorem splitDelims_eq_runs_partial (buf delims : Str) (h : NUL ∉ buf) :
+    splitDelims buf delims = some (runs (fun c => delims.contains c) buf) := by
+  rw [splitDelims_eq_runs_with_nul]
+  congr 1
+  apply runs_congr
+  intro c hc
+  have : c ≠ NUL := fun e => h (e ▸ hc)
+  simp [this]
+
+/-- "a\0a" split at "," : the code returns two tokens, the definition one -/
+theorem splitDelims_nul_witness :
+    splitDelims [0x61#8, NUL, 0x61#8] [0x2c#8]
+      ≠ some (runs (fun c => [0x2c#8].contains c) [0x61#8, NUL, 0x61#8]) := by decide
+
+-- non-vacuity of the hypothesis of `splitDelims_eq_runs_partial`
+example : NUL ∉ ([0x61#8, 0x20#8, 0x62#8] : Str) := by decide
+
+/-- before `fix: split(buffer, char) tests for the end of the buffer …` the
+delimiter-skipping loop read the byte behind the buffer — on the empty buffer
+and after the last token of any other -/
+theorem splitCharOrig_overread_witness :
+    splitCharOrig [] SP = none ∧ splitCharOrig [0x61#8] SP = none := by decide
+
+/-! ## join, and join ∘ split / split ∘ join -/
+
+/-- `join(vec, delim)` = the tokens with one delimiter between neighbours -/
+theorem join_eq_intercalate (vec : List Str) (delim : Byte) :
+    join vec delim = List.intercalate [delim] vec := by
+  unfold join
+  split
+  · rename_i h
+    have : vec = [] := List.eq_nil_of_length_eq_zero h
+    subst this; rfl
+  · rw [joinLoop_eq]; simp
+
+/-- the iterator-range `join` of string.h (with the repaired empty range) -/
+theorem joinFmt_eq (vec : List Str) (delim pre post : Str) :
+    joinFmt vec delim pre post = pre ++ List.intercalate delim vec ++ post := by
+  unfold joinFmt
+  split
+  · rename_i h
+    have : vec = [] := List.eq_nil_of_length_eq_zero h
+    subst this; simp [List.intercalate]
+  · simp only [joinLoop_eq]
+
+/-- split ∘ join = id on lists of non-empty delimiter-free tokens -/
+theorem split_join (toks : List Str) (delim : Byte)
+    (h : ∀ t ∈ toks, t ≠ [] ∧ delim ∉ t) :
+    splitChar (join toks delim) delim = some toks := by
+  rw [splitChar_eq_runs, join_eq_intercalate]
+  congr 1
+  apply runs_split_join _ delim (by simp)
+  intro t ht
+  refine ⟨(h t ht).1, fun c hc => ?_⟩
+  have : c ≠ delim := fun e => (h t ht).2 (e ▸ hc)
+  simpa using this
+
+-- the hypothesis is satisfiable
+example : ∀ t ∈ ([[0x61#8], [0x62#8, 0x63#8]] : List Str), t ≠ [] ∧ SP ∉ t := by decide
+
+/-- what split returns is such a token list: join ∘ split is a fixed point of split -/
+theorem split_join_split (buf : Str) (delim : Byte) :
+    ∀ toks, splitChar buf delim = some toks → splitChar (join toks delim) delim = some toks := by
+  intro toks h
+  rw [splitChar_eq_runs] at h
+  cases h
+  apply split_join
+  intro t ht
+  have := runs_tokens (· == delim) buf t ht
+  refine ⟨this.1, fun hm => ?_⟩
+  have := this.2 delim hm
+  simp at this
 
 end Igris.C19
